@@ -253,6 +253,10 @@ class World:
     # ---- C14: a derived property against a freshly created stream in the same state ----------------------
     def fresh_like(self, x):
         th = x._thermo
+        if type(th.mixture).__name__ != 'IdealMixture':
+            # equation-of-state mixtures keep working state on the mixture object, which every stream of the package shares:
+            # the reference is a fresh stream on a fresh package (same chemicals, same mixture class)
+            th = tmo.Thermo(th.chemicals, mixture=type(th.mixture).from_chemicals(th.chemicals), cache=False)
         if isinstance(x, tmo.MultiStream):
             y = tmo.MultiStream(None, thermo=th, T=x.T, P=x.P, phases=x.phases)
             y.imol.data[:] = x.imol.data.to_array()
@@ -545,6 +549,14 @@ class World:
             return self.view_ops(op, a)
         elif op == 'reset_thermo':
             S[a['x']]._reset_thermo(thermo(a['pkg']))
+        elif op == 'reassign':
+            x = S[a['x']]
+            T0 = x.T
+            if a['q'] == 'H':
+                x.H = x.H
+            else:
+                x.S = x.S
+            x.T = T0
         elif op == 'read':
             return dict(diff=self.read_diff(S[a['x']], a['prop']))
         elif op == 'construct':
@@ -611,6 +623,8 @@ def random_op(universe, rng, st, ops):
         return op, a
     if op == 'set_P':
         return op, dict(x=x, P=rng.choice([100, 200, 50]))
+    if op == 'reassign':
+        return op, dict(x=x, q=rng.choice(['H', 'S']))
     if op == 'set_phases':
         return op, dict(x=x, phs=rng.choice(PHASESETS))
     if op == 'set_phase':
